@@ -1666,7 +1666,7 @@ def states_equal(a, b):
     return a.env == b.env and a.lo == b.lo and a.hi == b.hi and a.sets == b.sets and a.cons == b.cons and a.mem == b.mem
 
 
-def analyze_async_entry(an, body, subst=None):
+def analyze_async_entry(an, body, subst=None, setup=None):
     """entry analysis of an `async fn`: run the shell (which builds the coroutine from the parameters), then the
     coroutine body with that state"""
     st = State()
@@ -1678,6 +1678,8 @@ def analyze_async_entry(an, body, subst=None):
     for i in range(1, body.argc + 1):
         nm = body.local_name(i) or ('arg%d' % i)
         st.env[(fr.id, i)] = an.materialize(body.locals[i], 'p%d_%s' % (i, nm), st, fr)
+    if setup:
+        setup(an, fr, st)
     out = an.run_body(fr, st)
     if out is None:
         return fr, None
